@@ -97,6 +97,7 @@ Proof. intros. split; reflexivity. Qed.
    data), whatever follows *)
 Theorem find_tokens_recover_stamp : forall pre sc bs1 tok call bs2 t post,
   clean pre = true -> first_some cursor_of (reach pre ++ bs1) = None -> tok <> [] ->
+  t <> TBroken ->
   find_stream_tokens (pre ++ Stream sc (bs1 ++ token_batch sc tok call :: bs2) t :: post)
   = (Some tok, or_first (first_some call_of (reach pre ++ bs1))
                         (match call with [] => None | _ => Some call end)).
@@ -105,8 +106,8 @@ Proof. exact find_tokens_stamped. Qed.
 (* ---- FindProtocolVersion ---------------------------------------------------------- *)
 Theorem find_protocol_version_exact : forall bd,
   find_protocol_version bd =
-  match bd with Stream _ bs _ :: _ => dflt (first_some pv_of bs) | _ => [] end.
-Proof. intro bd. rewrite find_pv_exact. now destruct bd as [|[sc bs t|] rest]. Qed.
+  match first_stream bd with Some (_, bs) => dflt (first_some pv_of bs) | None => [] end.
+Proof. exact find_pv_exact. Qed.
 
 (* ---- ReadUnaryResult / WriteUnaryResult ------------------------------------------- *)
 Theorem unary_result_roundtrip : forall r rest,
@@ -126,7 +127,7 @@ Proof. exact write_unary_rejects. Qed.
 
 (* leading log batches (any number) are skipped; the first batch with rows decides *)
 Theorem unary_skips_logs : forall sc logs b more t rest,
-  forallb is_log logs = true -> b_rows b <> 0%N ->
+  t <> TBroken -> forallb is_log logs = true -> b_rows b <> 0%N ->
   read_unary_result (Stream sc (logs ++ b :: more) t :: rest) = decide_result sc b.
 Proof. exact unary_skips_logs. Qed.
 
@@ -151,10 +152,32 @@ Proof.
   - now apply unary_log_only.
   - intros b more Hr He. apply unary_zero_row_not_log; auto using exception_not_skippable.
   - intros b more Hr He. apply unary_zero_row_not_log; auto using no_level_not_skippable.
-  - intros b more Hr Hf. rewrite unary_skips_logs by assumption. now apply decide_no_result_field.
-  - intros b more i n ty Hr Hi Hn Ht. rewrite unary_skips_logs by assumption.
-    now apply (decide_not_binary sc b i n ty).
+  - intros b more Hr Hf. destruct t; try reflexivity;
+      (rewrite unary_skips_logs by (assumption || discriminate); now apply decide_no_result_field).
+  - intros b more i n ty Hr Hi Hn Ht. destruct t; try reflexivity;
+      (rewrite unary_skips_logs by (assumption || discriminate);
+       now apply (decide_not_binary sc b i n ty)).
 Qed.
+
+(* ---- malformed framing ---------------------------------------------------------------
+   A body whose first stream declares more bytes than it has (or does not open
+   at all) is refused by every byte-slice function before arrow-go sees it:
+   nothing is extracted from it, however intact its first batches are. The
+   reader-based ReadRequest cannot apply the guard (the total size is unknown
+   to a reader) and still judges by the first batch alone. *)
+Theorem malformed_framing_refused : forall bd,
+  guard_first bd = false ->
+  find_stream_tokens bd = (None, None) /\ find_protocol_version bd = [] /\ read_unary_result bd = None.
+Proof. exact refused_yields_nothing. Qed.
+
+Theorem read_request_reader_unguarded : forall sc b bs t rest,
+  read_request (Stream sc (b :: bs) t :: rest) = validate sc b.
+Proof. exact read_request_first_batch. Qed.
+
+(* before the guard a version was extracted from such a body *)
+Theorem malformed_framing_legacy_refuted :
+  exists bd, guard_first bd = false /\ find_protocol_version_legacy bd <> [].
+Proof. exact legacy_refuted. Qed.
 
 (* ---- the decidable form evaluated on the implementation's observables ---------- *)
 Theorem spec_holds_on_model : forall i, spec_ok i (model i) = true.
@@ -163,7 +186,8 @@ Proof. exact model_meets_spec. Qed.
 (* ---- the byte-level loop over a codec oracle --------------------------------------
    For ANY encoder/decoder pair such that decoding the encoding of a complete
    stream followed by more bytes returns that stream and exactly those bytes,
-   and no stream encodes to zero bytes, the FindStreamTokens loop as written in
+   no stream encodes to zero bytes, and the framing guard never refuses such an
+   encoding, the FindStreamTokens loop as written in
    Go (with its no-progress guard, fuel = bytes + 1) computes on the
    concatenated encodings of any list of complete streams exactly the
    first-cursor / call-token rule above. *)
@@ -171,8 +195,10 @@ Theorem find_tokens_bytes_exact :
   forall (enc : seg -> bytes) (dec : bytes -> option (seg * bytes)),
   (forall sc bs rest, dec (enc (Stream sc bs TEos) ++ rest) = Some (Stream sc bs TEos, rest)) ->
   (forall g, enc g <> []) ->
+  forall guard : bytes -> bool,
+  (forall sc bs rest, guard (enc (Stream sc bs TEos) ++ rest) = true) ->
   forall ss, clean ss = true ->
-  find_bytes dec (S (length (encode enc ss))) (encode enc ss) None None = spec_tokens ss.
+  find_bytes dec guard (S (length (encode enc ss))) (encode enc ss) None None = spec_tokens ss.
 Proof. exact find_bytes_exact. Qed.
 
 (* ---- non-vacuity ---------------------------------------------------------------------- *)
